@@ -28,6 +28,12 @@ CHECKS = {
    text="Histories before saving (fresh, optimiser steps, data-dependent initialisation, batch-norm passes) are paths of the Session state graph; at every SaveLoadFresh a fresh model of the same configuration is built under a different seed, loaded, and compared bit for bit (forward, inverse, log_prob, transform_to_noise, fixed-seed sample). TLC judges the recorded traces.",
    design_ref="DESIGN.md section 4, C15",
    note="Function equality is sampled on probe inputs (bit-identical); configurations are those of the zoo. " + TRUSTED),
+
+ "C06": dict(
+   technique="TLA+ specification of MADE construction (spec/Made.tla) exhaustively model-checked by TLC over all architectures and random degree draws; final states rebuilt as real networks with injected draws; real-generator networks validated by TLC (TraceMade.tla)",
+   text="The network's dependency relation is the boolean product of the masks, so TLC's exhaustive run over every architecture up to the bound and every draw torch.randint can make decides autoregressiveness for ALL weight values. Final states are rebuilt as real networks (both copies and the mixture subclass, draws injected through torch.randint) and degrees, masks and the measured dependency pattern are compared; generic weights / ReLU / batch-norm / dropout are checked by autograd Jacobians; networks drawn with the real generator are accepted step by step by the trace specification.",
+   design_ref="DESIGN.md section 4, C06",
+   note="Bounded architecture sizes; exact dependency measured with all-ones weights. " + TRUSTED),
 }
 REASONS = {}
 
